@@ -264,3 +264,50 @@ def declare(rng, m):
             rng.shuffle(t)
             E0.append(t)
     return F0, E0
+
+
+def pad_vertices(rng, m, total):
+    """add isolated vertices (in no cell) up to `total` and renumber at random: cell vertex ids go beyond 256"""
+    n = len(m["V"])
+    if total <= n:
+        return
+    m["V"] = m["V"] + [[rng.randint(-9, 9), rng.randint(-9, 9), rng.randint(-9, 9)] for _ in range(total - n)]
+    renumber(m, rng)
+
+
+def fan_with_cell0_inside(rng):
+    """an open fan of 3-5 tetrahedra around one edge whose MIDDLE cell has id 0 while an END cell has id 16 and one of
+    the end cell's faces through the edge is declared beforehand: CPython then enumerates the edge's cell set as
+    16, 0, ... so the rotational walk starts at cell 16 and must step INTO cell 0 (truthiness of index 0)."""
+    k = rng.choice([3, 3, 4])
+    ring = [(2, 0, 0), (2, 2, 0), (0, 2, 0), (-2, 2, 0), (-2, 0, 0), (-2, -2, 0)][:k + 1]
+    V = [[0, 0, 0], [0, 0, 1]] + [list(p) for p in ring]
+    fan = [[0, 1, 2 + j, 3 + j] for j in range(k)]
+    mid = 1 if k == 3 else rng.randrange(1, k - 1)
+    end = rng.choice([0, k - 1])
+    others = [j for j in range(k) if j not in (mid, end)]
+    cells = [fan[mid]]
+    for t in range(15):                         # fillers: far away single tetrahedra (the end cell gets id 16 = 0 mod 8, 16)
+        o = len(V)
+        V += [[10 * (t + 1), 0, 0], [10 * (t + 1) + 1, 0, 0], [10 * (t + 1), 1, 0], [10 * (t + 1), 0, 1]]
+        cells.append([o, o + 1, o + 2, o + 3])
+    cells.append(fan[end])                      # id 16
+    cells += [fan[j] for j in others]
+    m = {"V": V, "C": cells}
+    outer = 2 + end if end == 0 else 3 + end    # the ring vertex of the end cell that only it has
+    F0 = [[0, 1, outer]]
+    # presentation: renumber vertices, random vertex order inside cells, keep the cell order
+    n = len(V)
+    perm = list(range(n))
+    rng.shuffle(perm)
+    VV = [None] * n
+    for old, new in enumerate(perm):
+        VV[new] = V[old]
+    m["V"] = VV
+    m["C"] = [[perm[v] for v in c] for c in cells]
+    F0 = [[perm[v] for v in f] for f in F0]
+    orient(m, rng, "random")
+    for f in F0:
+        rng.shuffle(f)
+    selfcheck(m)
+    return m, F0
